@@ -1,5 +1,5 @@
 (** C09 — Decoding cost is bounded: linear size, at most quadratic work. *)
-From DV Require Import Base.Bytes Label.Model Cost.Labels V4.Model V6.Model Cost.Size.
+From DV Require Import Base.Bytes Label.Model Cost.Labels V4.Model V6.Model V6.Wf Cost.Size Cost.Copy.
 
 (** The domain-name decoder is where expansion could occur (compression
     pointers, unterminated chains, runs of empty names).  For EVERY byte
@@ -42,6 +42,18 @@ Print Assumptions C09_v6_option_size.
 Theorem C09_v4_size : forall b p, dec4 b = Ok p -> size4 p <= length b.
 Proof. exact dec4_size. Qed.
 Print Assumptions C09_v4_size.
+
+(** Copy volume of nested decoding: every container level takes a private copy of its value before parsing its
+    sub-options, every leaf copies what it keeps; charging each node of the decoded value once per level above it,
+    for EVERY accepted byte string the octets copied are at most (2 + nesting depth) x 256 per input octet - the
+    "depth x n" term of the bound, with no exponential or quadratic-in-length blow-up hidden in the nesting. *)
+Theorem C09_v6_copy_volume : forall b m, dec_msg b = Ok m -> cvol_msg m <= (2 + depth_msg m) * (256 * length b).
+Proof. exact dec_msg_copy_volume. Qed.
+Print Assumptions C09_v6_copy_volume.
+
+Theorem C09_v6_option_copy_volume : forall o, cvol o <= (1 + depth o) * osize o.
+Proof. exact cvol_le. Qed.
+Print Assumptions C09_v6_option_copy_volume.
 
 (** C09_partial: what remains a measurement is the ALLOCATION of the Go code
     (octets allocated while decoding and re-encoding, one copy of the remainder
